@@ -131,6 +131,8 @@ public:
         while (EpsilonRecursive && last_n > 1) {
             auto offset = levels_offsets[levels_offsets.size() - 2];
             auto in_fun_rec = [&](auto i) { return segments[offset + i].get_first_x(); };
+            if (segments[offset + last_n - 1].get_first_x() == sentinel)
+                --last_n; // a segment starting at the sentinel acts as the sentinel of its level, as in PGMIndex::build
             last_n = internal::make_segmentation(last_n, EpsilonRecursive, in_fun_rec, out_fun);
             levels_offsets.push_back(levels_offsets.back() + last_n);
         }
@@ -153,6 +155,8 @@ public:
             auto l = levels_offsets[i - 1];
             auto r = levels_offsets[i];
             auto prev_level_size = i == 1 ? n : l - levels_offsets[i - 2];
+            if (i > 1 && segments[l - 1].get_first_x() == sentinel)
+                --prev_level_size; // the sentinel-keyed segment of the level below is not indexed by this level
             levels.emplace_back(segments.begin() + l, segments.begin() + r,
                                 intercepts.begin() + l, intercepts.begin() + r,
                                 map.begin() + l, map.begin() + r,
